@@ -78,11 +78,30 @@ def boundary_cases(rnd, tier):
     for m in masks:
         ds = [d for d in range(7) if m >> d & 1]
         for _ in range(8 if tier == "thorough" else 2):
-            cs.append(with_args(rnd, 6, [world.rand_clock(rnd, 0), world.rand_clock(rnd, 0), ds, rnd.choice(["set", "list"])]))
+            cs.append(with_args(rnd, 6, [world.rand_clock(rnd, 0), world.rand_clock(rnd, 0), ds, rnd.choice(["set", "list", "tuple", "frozenset"])]))
     for bad in world.BAD_CLOCKS:
         cs.append(with_args(rnd, 6, [bad, "10:00", [0], "set"])); cs.append(with_args(rnd, 6, ["10:00", bad, [], "set"]))
-    for ds in ([0, 0], [1, 2, 1], [6, 6, 6], [3, 4, 5, 3]): cs.append(with_args(rnd, 6, ["08:00", "09:30", ds, "list"]))
+    for ds in ([0, 0], [1, 2, 1], [6, 6, 6], [3, 4, 5, 3], [0] * 7, list(range(7)) + [3]):
+        for form in ("list", "tuple"): cs.append(with_args(rnd, 6, ["08:00", "09:30", ds, form]))
     return cs
+
+
+def run_on_one_object(rnd, n, kinds=None):
+    """operations in sequence on ONE api object per class: what a frame carries never depends on the calls made before"""
+    import asyncio
+    async def go():
+        cases = []; texts = []
+        for _ in range(n):
+            apis = {}; ident = {False: ("%06x" % rnd.randrange(1 << 24), "%02x" % rnd.randrange(256)), True: ("%06x" % rnd.randrange(1 << 24), "%02x" % rnd.randrange(256))}
+            now = rnd.randrange(1_600_000_000, 2_000_000_000)
+            for _ in range(rnd.randrange(2, 9)):
+                kind = rnd.choice(kinds or KINDS); t2 = kind in world.TYPE2_KINDS
+                if t2 not in apis: apis[t2] = world.ScriptedApi(t2, *ident[t2])
+                c = world.rand_op_case(rnd, kind); c["id"], c["key"] = ident[t2]; now += rnd.choice([0, 1, 60, 86400]); c["now"] = now
+                if kind == 4: c["replies"][1] = world.schedules_reply(rnd, now).hex()
+                texts.append(await apis[t2].run(kind, c["args"], [bytes.fromhex(r) for r in c["replies"]], now)); cases.append(c)
+        return cases, texts
+    return asyncio.run(go())
 
 
 def run(tier, rnd, out):
@@ -92,6 +111,8 @@ def run(tier, rnd, out):
     run_stream(out, "boundaries", cs, world.run_cases_fresh(cs))
     cs = oc.mixed_cases(rnd, 30 if tier == "quick" else 1500, KINDS)
     run_stream(out, "random", cs, world.run_cases_fresh(cs))
+    cs, texts = run_on_one_object(rnd, 40 if tier == "quick" else 1500)
+    run_stream(out, "sequences-on-one-object", cs, texts)
     out.exhaustive = False
 
 
